@@ -19,48 +19,71 @@ theorem store_sameLife (s : State) (m : Msg) : SameLife s (store s m) := by
   · exact SameLife.refl s
   · split <;> split <;> simp [SameLife]
 
-theorem roundStoreP2P_sameLife (s s' : State) (m : Msg) (h : roundStoreP2P s m = some s') : SameLife s s' := by
+/-- everything except the protocol-local accumulators is unchanged -/
+def SameCore (a b : State) : Prop :=
+  a.sc = b.sc ∧ a.idx = b.idx ∧ a.cur = b.cur ∧ a.reached = b.reached ∧ a.msgs = b.msgs ∧ a.bc = b.bc ∧ a.bh = b.bh ∧
+  a.err = b.err ∧ a.result = b.result ∧ a.out = b.out ∧ a.closes = b.closes
+
+theorem SameCore.refl (a : State) : SameCore a a := ⟨rfl, rfl, rfl, rfl, rfl, rfl, rfl, rfl, rfl, rfl, rfl⟩
+theorem SameCore.trans {a b c : State} (h1 : SameCore a b) (h2 : SameCore b c) : SameCore a c := by
+  obtain ⟨a1, a2, a3, a4, a5, a6, a7, a8, a9, a10, a11⟩ := h1
+  obtain ⟨b1, b2, b3, b4, b5, b6, b7, b8, b9, b10, b11⟩ := h2
+  exact ⟨a1.trans b1, a2.trans b2, a3.trans b3, a4.trans b4, a5.trans b5, a6.trans b6, a7.trans b7, a8.trans b8,
+    a9.trans b9, a10.trans b10, a11.trans b11⟩
+theorem SameCore.toSameLife {a b : State} (h : SameCore a b) : SameLife a b :=
+  ⟨h.2.2.2.2.2.2.2.1, h.2.2.2.2.2.2.2.2.1, h.2.2.2.2.2.2.2.2.2.2, h.1, h.2.2.2.2.2.2.2.2.2.1⟩
+
+theorem roundStoreP2P_sameCore (s s' : State) (m : Msg) (h : roundStoreP2P s m = some s') : SameCore s s' := by
   unfold roundStoreP2P at h
   split at h
   · simp at h
   · split at h
     · simp at h
-    · simp at h; subst h; simp [SameLife]
+    · simp at h; subst h; simp [SameCore]
 
-theorem roundStoreBcast_sameLife (s s' : State) (m : Msg) (h : roundStoreBcast s m = some s') : SameLife s s' := by
+theorem roundStoreBcast_sameCore (s s' : State) (m : Msg) (h : roundStoreBcast s m = some s') : SameCore s s' := by
   unfold roundStoreBcast at h
   split at h
   · simp at h
   · split at h
     · simp at h
-    · simp at h; subst h; simp [SameLife]
+    · simp at h; subst h; simp [SameCore]
 
-theorem verifyMessage_sameLife (s s' : State) (m : Msg) (h : verifyMessage s m = some s') : SameLife s s' := by
+theorem verifyMessage_sameCore (s s' : State) (m : Msg) (h : verifyMessage s m = some s') : SameCore s s' := by
   unfold verifyMessage at h
   split at h
-  · simp at h; subst h; exact SameLife.refl _
+  · simp at h; subst h; exact SameCore.refl _
   · split at h
-    · simp at h; subst h; exact SameLife.refl _
+    · simp at h; subst h; exact SameCore.refl _
     · split at h
       · simp at h
-      · exact roundStoreP2P_sameLife s s' m h
+      · exact roundStoreP2P_sameCore s s' m h
 
-theorem verifyBroadcastMessage_sameLife (s s' : State) (m : Msg) (h : verifyBroadcastMessage s m = some s') :
-    SameLife s s' := by
+theorem verifyBroadcastMessage_sameCore (s s' : State) (m : Msg) (h : verifyBroadcastMessage s m = some s') :
+    SameCore s s' := by
   unfold verifyBroadcastMessage at h
   split at h
-  · simp at h; subst h; exact SameLife.refl _
+  · simp at h; subst h; exact SameCore.refl _
   · split at h
     · simp at h
     · split at h
       · simp at h
       · next s1 h1 =>
-        have l1 := roundStoreBcast_sameLife s s1 m h1
+        have l1 := roundStoreBcast_sameCore s s1 m h1
         split at h
         · simp at h; subst h; exact l1
         · split at h
           · simp at h; subst h; exact l1
-          · exact l1.trans (verifyMessage_sameLife s1 s' _ h)
+          · exact l1.trans (verifyMessage_sameCore s1 s' _ h)
+
+theorem roundStoreP2P_sameLife (s s' : State) (m : Msg) (h : roundStoreP2P s m = some s') : SameLife s s' :=
+  (roundStoreP2P_sameCore s s' m h).toSameLife
+theorem roundStoreBcast_sameLife (s s' : State) (m : Msg) (h : roundStoreBcast s m = some s') : SameLife s s' :=
+  (roundStoreBcast_sameCore s s' m h).toSameLife
+theorem verifyMessage_sameLife (s s' : State) (m : Msg) (h : verifyMessage s m = some s') : SameLife s s' :=
+  (verifyMessage_sameCore s s' m h).toSameLife
+theorem verifyBroadcastMessage_sameLife (s s' : State) (m : Msg) (h : verifyBroadcastMessage s m = some s') :
+    SameLife s s' := (verifyBroadcastMessage_sameCore s s' m h).toSameLife
 
 theorem fillBh_sameLife (H : Bytes → Bytes) (s : State) : SameLife s (fillBh H s) := by
   unfold fillBh
@@ -70,8 +93,8 @@ theorem fillBh_sameLife (H : Bytes → Bytes) (s : State) : SameLife s (fillBh H
     · exact SameLife.refl s
   · exact SameLife.refl s
 
-theorem replayStep_sameLife (sp : RoundSpec) (n : Nat) (acc : State × Option Bytes) (id : Bytes) (s0 : State)
-    (h : SameLife s0 acc.1) : SameLife s0 (replayStep sp n acc id).1 := by
+theorem replayStep_sameCore (sp : RoundSpec) (n : Nat) (acc : State × Option Bytes) (id : Bytes) (s0 : State)
+    (h : SameCore s0 acc.1) : SameCore s0 (replayStep sp n acc id).1 := by
   obtain ⟨st, c⟩ := acc
   cases c with
   | some c => exact h
@@ -84,24 +107,26 @@ theorem replayStep_sameLife (sp : RoundSpec) (n : Nat) (acc : State × Option By
         · exact h
         · split
           · exact h
-          · next st' hv => exact h.trans (verifyBroadcastMessage_sameLife _ _ _ hv)
+          · next st' hv => exact h.trans (verifyBroadcastMessage_sameCore _ _ _ hv)
     · split
       · exact h
       · split
         · exact h
-        · next st' hv => exact h.trans (verifyMessage_sameLife _ _ _ hv)
+        · next st' hv => exact h.trans (verifyMessage_sameCore _ _ _ hv)
 
-theorem replayQueued_sameLife (s : State) : SameLife s (replayQueued s).1 := by
+theorem replayQueued_sameCore (s : State) : SameCore s (replayQueued s).1 := by
   unfold replayQueued
   generalize s.sc.ids = ids
-  suffices h : ∀ (acc : State × Option Bytes), SameLife s acc.1 →
-      SameLife s (List.foldl (replayStep (curSpec s) s.cur) acc ids).1 from h (s, none) (SameLife.refl s)
+  suffices h : ∀ (acc : State × Option Bytes), SameCore s acc.1 →
+      SameCore s (List.foldl (replayStep (curSpec s) s.cur) acc ids).1 from h (s, none) (SameCore.refl s)
   induction ids with
   | nil => intro acc h; exact h
   | cons id ids ih =>
     intro acc h
     rw [List.foldl_cons]
-    exact ih _ (replayStep_sameLife (curSpec s) s.cur acc id s h)
+    exact ih _ (replayStep_sameCore (curSpec s) s.cur acc id s h)
+
+theorem replayQueued_sameLife (s : State) : SameLife s (replayQueued s).1 := (replayQueued_sameCore s).toSameLife
 
 /-- running: channel open, neither result nor error -/
 def Live (s : State) : Prop := s.closes = 0 ∧ s.err = none ∧ s.result = none
@@ -283,108 +308,125 @@ theorem sendAll_outOk (s : State) (nx : RoundSpec) (o : OutOk s) : OutOk (sendAl
   · exact emitFor_header s nx m hm
 
 /-- a state predicate that survives every elementary transition of the handler -/
-structure Preserved (P : State → Prop) : Prop where
-  sameLife : ∀ {s s' : State}, SameLife s s' → P s → P s'
-  abort : ∀ (s : State) (e : Option ErrKind), P s → P (abort s e)
-  send : ∀ (s : State) (nx : RoundSpec), P s → P (sendAll s (emitFor s nx))
-  output : ∀ (s : State) (v : Nat), P s → P { enter0 s with result := some v }
+structure Preserved (H : Bytes → Bytes) (P : State → Prop) : Prop where
+  onCore : ∀ {s s' : State}, SameCore s s' → P s → P s'
+  onStore : ∀ (s : State) (m : Msg), P s → P (store s m)
+  onFill : ∀ (s : State), P s → P (fillBh H s)
+  onAbort : ∀ (s : State) (e : Option ErrKind), P s → P (abort s e)
+  onSend : ∀ (s : State) (nx : RoundSpec), P s → P (sendAll s (emitFor s nx))
+  onEnter : ∀ (s : State) (i : Nat) (nx : RoundSpec), P s → P (enter s i nx)
+  onEnter0 : ∀ (s : State), P s → P (enter0 s)
+  onOutput : ∀ (s : State) (v : Nat), P s → P { enter0 s with result := some v }
 
 def Step.st : Step → State
   | .halt s => s
   | .more s => s
 
-theorem finalizeStep_pres {P : State → Prop} (hp : Preserved P) (H : Bytes → Bytes) (s : State) (o : P s) :
+theorem finalizeStep_pres {H : Bytes → Bytes} {P : State → Prop} (hp : Preserved H P) (s : State) (o : P s) :
     P (finalizeStep H s).st := by
-  have o1 : P (fillBh H s) := hp.sameLife (fillBh_sameLife H s) o
+  have o1 : P (fillBh H s) := hp.onFill s o
   unfold finalizeStep
   simp only
   split
   · (simp only [Step.st]; exact o1)
   · split
-    · (simp only [Step.st]; exact hp.abort _ _ o1)
+    · (simp only [Step.st]; exact hp.onAbort _ _ o1)
     · split
-      · (simp only [Step.st]; exact hp.abort _ _ o1)
+      · (simp only [Step.st]; exact hp.onAbort _ _ o1)
       · split
         · (simp only [Step.st]; exact o1)
-        · (simp only [Step.st]; exact hp.abort _ _ (hp.sameLife (enter0_sameLife _) o1))
+        · (simp only [Step.st]; exact hp.onAbort _ _ (hp.onEnter0 _ o1))
       · split
         · (simp only [Step.st]; exact o1)
-        · (simp only [Step.st]; exact hp.abort _ _ (hp.output _ _ o1))
+        · (simp only [Step.st]; exact hp.onAbort _ _ (hp.onOutput _ _ o1))
       · next i nx _ =>
-        have o3 := hp.send (fillBh H s) nx o1
+        have o3 := hp.onSend (fillBh H s) nx o1
         split
         · (simp only [Step.st]; exact o3)
-        · have o4 := hp.sameLife (enter_sameLife _ i nx) o3
+        · have o4 := hp.onEnter _ i nx o3
           split
           · next s5 culprit hq =>
-            have := replayQueued_sameLife (enter (sendAll (fillBh H s) (emitFor (fillBh H s) nx)) i nx)
+            have := replayQueued_sameCore (enter (sendAll (fillBh H s) (emitFor (fillBh H s) nx)) i nx)
             rw [hq] at this
-            simp only [Step.st]; exact hp.abort _ _ (hp.sameLife this o4)
+            simp only [Step.st]; exact hp.onAbort _ _ (hp.onCore this o4)
           · next s5 hq =>
-            have := replayQueued_sameLife (enter (sendAll (fillBh H s) (emitFor (fillBh H s) nx)) i nx)
+            have := replayQueued_sameCore (enter (sendAll (fillBh H s) (emitFor (fillBh H s) nx)) i nx)
             rw [hq] at this
-            simp only [Step.st]; exact hp.sameLife this o4
+            simp only [Step.st]; exact hp.onCore this o4
 
-theorem finalize_pres {P : State → Prop} (hp : Preserved P) (H : Bytes → Bytes) (fuel : Nat) (s : State) (o : P s) :
+theorem finalize_pres {H : Bytes → Bytes} {P : State → Prop} (hp : Preserved H P) (fuel : Nat) (s : State) (o : P s) :
     P (finalize H fuel s) := by
   induction fuel generalizing s with
   | zero => exact o
   | succ fuel ih =>
     unfold finalize
-    have := finalizeStep_pres hp H s o
+    have := finalizeStep_pres hp s o
     split
     · next s' h => rw [h] at this; exact this
     · next s' h => rw [h] at this; exact ih s' this
 
-theorem accept_pres {P : State → Prop} (hp : Preserved P) (H : Bytes → Bytes) (s : State) (m : Msg) (o : P s) :
+theorem accept_pres {H : Bytes → Bytes} {P : State → Prop} (hp : Preserved H P) (s : State) (m : Msg) (o : P s) :
     P (accept H s m) := by
   unfold accept
   split
   · exact o
   · split
-    · exact hp.abort _ _ o
-    · have o1 := hp.sameLife (store_sameLife s m) o
+    · exact hp.onAbort _ _ o
+    · have o1 := hp.onStore s m o
       unfold acceptStored
       split
       · exact o1
       · split
-        · exact hp.abort _ _ o1
+        · exact hp.onAbort _ _ o1
         · next s2 hv =>
           apply finalize_pres hp
           split at hv
-          · exact hp.sameLife (verifyBroadcastMessage_sameLife _ _ _ hv) o1
-          · exact hp.sameLife (verifyMessage_sameLife _ _ _ hv) o1
+          · exact hp.onCore (verifyBroadcastMessage_sameCore _ _ _ hv) o1
+          · exact hp.onCore (verifyMessage_sameCore _ _ _ hv) o1
 
-theorem stop_pres {P : State → Prop} (hp : Preserved P) (s : State) (o : P s) : P (stop s) := by
+theorem stop_pres {H : Bytes → Bytes} {P : State → Prop} (hp : Preserved H P) (s : State) (o : P s) : P (stop s) := by
   unfold stop
   split
   · exact o
-  · exact hp.abort _ _ o
+  · exact hp.onAbort _ _ o
 
-theorem outOk_preserved : Preserved OutOk where
-  sameLife := fun h o => o.of_sameLife h
-  abort := abort_outOk
-  send := sendAll_outOk
-  output := fun _ _ o => o
+/-- predicates that only look at the lifecycle part are preserved as soon as they survive the
+    transitions that change it -/
+theorem preserved_of_sameLife (H : Bytes → Bytes) (P : State → Prop)
+    (hl : ∀ {s s' : State}, SameLife s s' → P s → P s')
+    (ha : ∀ (s : State) (e : Option ErrKind), P s → P (Handler.abort s e))
+    (hs : ∀ (s : State) (nx : RoundSpec), P s → P (sendAll s (emitFor s nx)))
+    (ho : ∀ (s : State) (v : Nat), P s → P { enter0 s with result := some v }) : Preserved H P where
+  onCore := fun h o => hl h.toSameLife o
+  onStore := fun s m o => hl (store_sameLife s m) o
+  onFill := fun s o => hl (fillBh_sameLife H s) o
+  onAbort := ha
+  onSend := hs
+  onEnter := fun s i nx o => hl (enter_sameLife s i nx) o
+  onEnter0 := fun s o => hl (enter0_sameLife s) o
+  onOutput := ho
+
+theorem outOk_preserved (H : Bytes → Bytes) : Preserved H OutOk :=
+  preserved_of_sameLife H OutOk (fun h o => o.of_sameLife h) abort_outOk sendAll_outOk (fun _ _ o => o)
 
 /-- the script of a handler never changes -/
-theorem sc_preserved (sc : Script) : Preserved (fun s => s.sc = sc) where
-  sameLife := fun h o => h.2.2.2.1 ▸ o
-  abort := fun s e o => by cases e <;> simpa [Handler.abort] using o
-  send := fun s nx o => (sendAll_frame s (emitFor s nx)).2.2.2.1 ▸ o
-  output := fun _ _ o => o
+theorem sc_preserved (H : Bytes → Bytes) (sc : Script) : Preserved H (fun s => s.sc = sc) :=
+  preserved_of_sameLife H _ (fun h o => h.2.2.2.1 ▸ o)
+    (fun s e o => by cases e <;> simpa [Handler.abort] using o)
+    (fun s nx o => (sendAll_frame s (emitFor s nx)).2.2.2.1 ▸ o)
+    (fun _ _ o => o)
 
 theorem init_outOk (H : Bytes → Bytes) (sc : Script) : OutOk (init H sc) := by
   unfold init
-  apply finalize_pres outOk_preserved
+  apply finalize_pres (outOk_preserved H)
   intro m hm
-  simp at hm
+  simp [state0] at hm
 
 theorem init_sc (H : Bytes → Bytes) (sc : Script) : (init H sc).sc = sc := by
   unfold init
-  exact finalize_pres (sc_preserved sc) H _ _ rfl
+  exact finalize_pres (sc_preserved H sc) _ _ rfl
 
-theorem run_pres {P : State → Prop} (hp : Preserved P) (H : Bytes → Bytes) (sc : Script) (calls : List Call)
+theorem run_pres {H : Bytes → Bytes} {P : State → Prop} (hp : Preserved H P) (sc : Script) (calls : List Call)
     (h0 : P (init H sc)) : P (run H sc calls) := by
   unfold run
   generalize init H sc = s at h0
@@ -393,16 +435,61 @@ theorem run_pres {P : State → Prop} (hp : Preserved P) (H : Bytes → Bytes) (
   | cons c cs ih =>
     apply ih
     cases c <;> simp only [apply]
-    · exact accept_pres hp H s _ h0
+    · exact accept_pres hp s _ h0
     · exact h0
     · exact h0
     · exact h0
     · exact stop_pres hp s h0
 
 theorem run_sc (H : Bytes → Bytes) (sc : Script) (calls : List Call) : (run H sc calls).sc = sc :=
-  run_pres (sc_preserved sc) H sc calls (init_sc H sc)
+  run_pres (sc_preserved H sc) sc calls (init_sc H sc)
 
 theorem run_outOk (H : Bytes → Bytes) (sc : Script) (calls : List Call) : OutOk (run H sc calls) :=
-  run_pres outOk_preserved H sc calls (init_outOk H sc)
+  run_pres (outOk_preserved H) sc calls (init_outOk H sc)
+
+/-! ### every state a handler passes through (also inside a call) -/
+
+/-- states reachable from the freshly built handler through the elementary transitions that `finalize`,
+    `Accept` and `Stop` are composed of — this includes every intermediate state inside a call -/
+inductive Reach (H : Bytes → Bytes) (sc : Script) : State → Prop where
+  | start : Reach H sc (state0 sc)
+  | core {s s' : State} : Reach H sc s → SameCore s s' → Reach H sc s'
+  | store {s : State} (m : Msg) : Reach H sc s → Reach H sc (Handler.store s m)
+  | fill {s : State} : Reach H sc s → Reach H sc (fillBh H s)
+  | abort {s : State} (e : Option ErrKind) : Reach H sc s → Reach H sc (Handler.abort s e)
+  | send {s : State} (nx : RoundSpec) : Reach H sc s → Reach H sc (sendAll s (emitFor s nx))
+  | enter {s : State} (i : Nat) (nx : RoundSpec) : Reach H sc s → Reach H sc (Handler.enter s i nx)
+  | enter0 {s : State} : Reach H sc s → Reach H sc (Handler.enter0 s)
+  | output {s : State} (v : Nat) : Reach H sc s → Reach H sc { Handler.enter0 s with result := some v }
+
+theorem reach_preserved (H : Bytes → Bytes) (sc : Script) : Preserved H (Reach H sc) where
+  onCore := fun h o => Reach.core o h
+  onStore := fun _ m o => Reach.store m o
+  onFill := fun _ o => Reach.fill o
+  onAbort := fun _ e o => Reach.abort e o
+  onSend := fun _ nx o => Reach.send nx o
+  onEnter := fun _ i nx o => Reach.enter i nx o
+  onEnter0 := fun _ o => Reach.enter0 o
+  onOutput := fun _ v o => Reach.output v o
+
+theorem reach_pres {H : Bytes → Bytes} {P : State → Prop} (hp : Preserved H P) (sc : Script) (h0 : P (state0 sc))
+    (s : State) (r : Reach H sc s) : P s := by
+  induction r with
+  | start => exact h0
+  | core _ h ih => exact hp.onCore h ih
+  | store m _ ih => exact hp.onStore _ m ih
+  | fill _ ih => exact hp.onFill _ ih
+  | abort e _ ih => exact hp.onAbort _ e ih
+  | send nx _ ih => exact hp.onSend _ nx ih
+  | enter i nx _ ih => exact hp.onEnter _ i nx ih
+  | enter0 _ ih => exact hp.onEnter0 _ ih
+  | output v _ ih => exact hp.onOutput _ v ih
+
+theorem init_reach (H : Bytes → Bytes) (sc : Script) : Reach H sc (init H sc) := by
+  unfold init
+  exact finalize_pres (reach_preserved H sc) _ _ Reach.start
+
+theorem run_reach (H : Bytes → Bytes) (sc : Script) (calls : List Call) : Reach H sc (run H sc calls) :=
+  run_pres (reach_preserved H sc) sc calls (init_reach H sc)
 
 end Mps.Handler
